@@ -2,6 +2,7 @@ package main
 
 import (
 	"encoding/json"
+	"errors"
 	"fmt"
 	"reflect"
 	"sort"
@@ -550,6 +551,8 @@ func runC20(cases string, res *Result) {
 		return eng.Render(id, map[string]interface{}{"x": x})
 	}
 	c20HeldResults(res)
+	c20WordLikeNames(res)
+	c20MethodValues(res)
 	var knownFinding *Finding
 	pairsSeen := map[string]bool{}
 
@@ -771,6 +774,125 @@ func c20HeldResults(res *Result) {
 					Detail: "the value a pointer-receiver method yielded for one object changed (or was wrong) once the same attribute had been looked up on another object"})
 				break
 			}
+		}
+	}
+}
+
+// c20WordLikeNames: attribute names that are also words of the expression language (constants in several spellings,
+// operator words, test names): after a dot they are names like any other -- the key of a map, the field or method
+// of a struct -- and the dot and bracket forms agree.
+func c20WordLikeNames(res *Result) {
+	words := []string{"none", "NONE", "None", "true", "TRUE", "True", "false", "FALSE", "null", "NULL", "Null", "nil", "and", "or", "not", "in", "is", "matches", "defined", "empty",
+		"even", "odd", "starts", "ends", "with", "if", "else", "for", "set", "block", "loop", "_self", "e", "length", "first", "keys", "default"}
+	m := map[string]interface{}{}
+	ms := map[string]string{}
+	var fields []reflect.StructField
+	for _, w := range words {
+		m[w] = "value-of-" + w
+		ms[w] = "text-of-" + w
+		if w[0] >= 'A' && w[0] <= 'Z' {
+			fields = append(fields, reflect.StructField{Name: w, Type: reflect.TypeOf("")})
+		}
+	}
+	st := reflect.New(reflect.StructOf(fields)).Elem()
+	for i, f := range fields {
+		st.Field(i).SetString("field-" + f.Name)
+	}
+	eng := twig.New()
+	ctx := map[string]interface{}{"m": m, "ms": ms, "st": st.Interface(), "pst": st.Addr().Interface()}
+	for _, w := range words {
+		for _, tc := range []struct{ tpl, want string }{
+			{"{{ m." + w + " }}", "value-of-" + w}, {"{{ m['" + w + "'] }}", "value-of-" + w}, {"{{ ms." + w + " }}", "text-of-" + w},
+			{"{% if m." + w + " is defined %}d{% else %}u{% endif %}", "d"}, {"{% set q = m." + w + " %}{{ q }}", "value-of-" + w},
+		} {
+			res.Evaluations++
+			res.Hist["stream:word-like-names"]++
+			name := "w:" + tc.tpl
+			if err := eng.RegisterString(name, tc.tpl); err != nil {
+				res.Hist["word-like-names: not accepted after a dot"]++
+				continue
+			}
+			got, err := eng.Render(name, ctx)
+			if err != nil {
+				got = "error: " + err.Error()
+			}
+			if got != tc.want {
+				res.add(Finding{Kind: "oracle", Where: "word-like-names", Case: Case{"stream": "word-like-names", "tpl": tc.tpl}, Expected: tc.want, Observed: got,
+					Detail: "the map holds the key " + strconv.Quote(w) + "; the attribute access did not yield its value"})
+			}
+		}
+		if w[0] >= 'A' && w[0] <= 'Z' {
+			for _, obj := range []string{"st", "pst"} {
+				tpl := "{{ " + obj + "." + w + " }}"
+				res.Evaluations++
+				if err := eng.RegisterString("w:"+tpl, tpl); err != nil {
+					continue
+				}
+				got, err := eng.Render("w:"+tpl, ctx)
+				if err != nil {
+					got = "error: " + err.Error()
+				}
+				if got != "field-"+w {
+					res.add(Finding{Kind: "oracle", Where: "word-like-names", Case: Case{"stream": "word-like-names", "tpl": tpl}, Expected: "field-" + w, Observed: got,
+						Detail: "the struct has the exported field " + w})
+				}
+			}
+		}
+	}
+}
+
+type C20Scanner struct{ msg string }
+
+func (s C20Scanner) Err() error             { return errors.New(s.msg) }
+func (s *C20Scanner) PtrErr() error         { return errors.New("ptr " + s.msg) }
+func (s C20Scanner) NoErr() error           { return nil }
+func (s C20Scanner) Text() string           { return "text " + s.msg }
+func (s C20Scanner) Flag() bool             { return true }
+func (s C20Scanner) Nums() []int            { return []int{1, 2} }
+func (s C20Scanner) Stringer() fmt.Stringer { return c20Str("st " + s.msg) }
+
+type c20Str string
+
+func (s c20Str) String() string { return string(s) }
+
+type C20Wrap struct {
+	C20Scanner
+	Name string
+}
+
+// c20MethodValues: a zero-argument method yields its value whatever the type of that value is -- an error (nil or
+// not), a Stringer, a slice -- on values, pointers and through embedding.
+func c20MethodValues(res *Result) {
+	eng := twig.New()
+	objs := map[string]interface{}{"v": C20Scanner{"eof"}, "p": &C20Scanner{"eof"}, "w": C20Wrap{C20Scanner{"eof"}, "n"}, "pw": &C20Wrap{C20Scanner{"eof"}, "n"}}
+	for obj := range objs {
+		for _, tc := range []struct{ tpl, want string }{
+			{"{{ $.Err }}", "eof"}, {"{% if $.Err %}failed{% else %}fine{% endif %}", "failed"}, {"{{ $.Err is null ? 'nil' : 'set' }}", "set"}, {"{{ $.NoErr is null ? 'nil' : 'set' }}", "nil"},
+			{"{{ $.NoErr }}|{{ $.Text }}", "|text eof"}, {"{{ $.Flag ? 'y' : 'n' }}{{ $.Nums|join(',') }}", "y1,2"}, {"{{ $.Stringer }}", "st eof"}, {"[{{ $.Err }}]{{ $.Text }}", "[eof]text eof"},
+		} {
+			tpl := strings.ReplaceAll(tc.tpl, "$", obj)
+			res.Evaluations++
+			res.Hist["stream:method-values"]++
+			if err := eng.RegisterString("mv:"+tpl, tpl); err != nil {
+				continue
+			}
+			got, err := eng.Render("mv:"+tpl, objs)
+			if err != nil {
+				got = "error: " + err.Error()
+			}
+			if got != tc.want {
+				res.add(Finding{Kind: "oracle", Where: "method-values", Case: Case{"stream": "method-values", "tpl": tpl, "object": fmt.Sprintf("%T", objs[obj])}, Expected: tc.want, Observed: got,
+					Detail: "the value of a zero-argument method (an error value, nil, a Stringer, a slice) is what the attribute yields"})
+			}
+		}
+	}
+	// pointer-receiver method on addressable values
+	for _, obj := range []string{"p", "pw"} {
+		tpl := "{{ " + obj + ".PtrErr }}"
+		res.Evaluations++
+		eng.RegisterString("mv:"+tpl, tpl)
+		if got, err := eng.Render("mv:"+tpl, objs); err != nil || got != "ptr eof" {
+			res.add(Finding{Kind: "oracle", Where: "method-values", Case: Case{"stream": "method-values", "tpl": tpl}, Expected: "ptr eof", Observed: fmt.Sprintf("%q err=%v", got, err)})
 		}
 	}
 }
